@@ -481,6 +481,9 @@ func stripRandom(obs []string) []string {
 }
 
 func c20RunScenario(c *core.Ctx, sc c20Scenario, bound int, maxExec int64) core.Verdict {
+	// a thread that does not reach its next scheduling point within this wall time is taken to be blocked in
+	// something the scheduler does not intercept (steps take microseconds; the margin is for a starved machine)
+	const stepTimeout = 90 * time.Second
 	bs := c20Bodies()
 	const seed = 777
 	// solo observations: each body alone on a fresh fixture (no scheduler)
@@ -523,7 +526,7 @@ func c20RunScenario(c *core.Ctx, sc c20Scenario, bound int, maxExec int64) core.
 		if x.Hung {
 			// a thread blocked in something the scheduler does not intercept (a channel
 			// operation, a timer). Decide on real goroutines whether the scenario can finish.
-			if c20FreeRunFinishes(sc, bs, 20*time.Second) {
+			if c20FreeRunFinishes(sc, bs, 2*time.Minute) {
 				hungUncontrolled = fmt.Sprintf("schedule %s: a thread blocked after %s in an operation the scheduler does not intercept (channel / timer); the same bodies finish on free-running goroutines", schedStr(x.Choices), x.HungSite)
 			} else {
 				fail = fmt.Sprintf("execution did not finish (deadlock or hang) under schedule %s, last scheduling point %s; the same bodies do not finish on free-running goroutines either", schedStr(x.Choices), x.HungSite)
@@ -564,7 +567,7 @@ func c20RunScenario(c *core.Ctx, sc c20Scenario, bound int, maxExec int64) core.
 		return true
 	}
 	// determinism: the first schedule twice, identical observations
-	x1, err := sched.Run(mk(), nil, 20*time.Second)
+	x1, err := sched.Run(mk(), nil, stepTimeout)
 	if err != nil {
 		return core.Fail("HARNESS: %v", err)
 	}
@@ -574,6 +577,7 @@ func c20RunScenario(c *core.Ctx, sc c20Scenario, bound int, maxExec int64) core.
 			c.P.Capped = true
 			c.P.CapNote = fmt.Sprintf("scenario %s not explorable: %s", sc.name(bs), hungUncontrolled)
 			c.Count("scenarios_not_explorable_uninstrumented_blocking", 1)
+			c.Note("scenario %s not explorable: %s", sc.name(bs), hungUncontrolled)
 			return core.Verdict{OK: true, Skip: true, Detail: hungUncontrolled}
 		}
 		return core.Verdict{Detail: fmt.Sprintf("scenario %s: %s", sc.name(bs), fail), Data: map[string]any{"scenario": sc.name(bs), "bound": 0}}
@@ -590,7 +594,7 @@ func c20RunScenario(c *core.Ctx, sc c20Scenario, bound int, maxExec int64) core.
 		fmt.Fprint(&b, len(x.Points))
 		return b.String()
 	}
-	x2, err := sched.Run(mk(), x1.Choices, 20*time.Second)
+	x2, err := sched.Run(mk(), x1.Choices, stepTimeout)
 	if err != nil {
 		return core.Fail("the first schedule cannot be replayed: %v (the sequence of scheduling points depends on something other than the schedule)", err)
 	}
@@ -627,7 +631,7 @@ func c20RunScenario(c *core.Ctx, sc c20Scenario, bound int, maxExec int64) core.
 	if !c.Deadline.IsZero() && c.Deadline.Before(dl) {
 		dl = c.Deadline
 	}
-	st, err := sched.Explore(mk, bound, 4*maxExec, 20*time.Second, dl, check)
+	st, err := sched.Explore(mk, bound, 4*maxExec, stepTimeout, dl, check)
 	if err != nil {
 		return core.Fail("HARNESS: %v", err)
 	}
@@ -659,6 +663,7 @@ func c20RunScenario(c *core.Ctx, sc c20Scenario, bound int, maxExec int64) core.
 		c.P.Capped = true
 		c.P.CapNote = fmt.Sprintf("scenario %s not explorable: %s", sc.name(bs), hungUncontrolled)
 		c.Count("scenarios_not_explorable_uninstrumented_blocking", 1)
+		c.Note("scenario %s not explorable: %s", sc.name(bs), hungUncontrolled)
 		return core.Verdict{OK: true, Skip: true, Detail: hungUncontrolled}
 	}
 	if fail != "" {
